@@ -75,14 +75,15 @@ Fixpoint norm_walk (fuel : nat) (h : heap) (n : nat) : option (list nat) :=
   | O => None
   | S f =>
       if is_text h n then Some []
-      else (fix go (l : list nat) : option (list nat) :=
-              match l with
-              | [] => Some []
-              | x :: r => match norm_walk f h x, go r with Some a, Some b => Some (a ++ b) | _, _ => None end
-              end) (map snd (attrs h n) ++ filter (fun x => negb (is_text h x)) (children h n))
-           |> (fun o => match o with Some l => Some (n :: l) | None => None end)
-  end
-where "x |> f" := (f x).
+      else match (fix go (l : list nat) : option (list nat) :=
+                    match l with
+                    | [] => Some []
+                    | x :: r => match norm_walk f h x, go r with Some a, Some b => Some (a ++ b) | _, _ => None end
+                    end) (map snd (attrs h n) ++ filter (fun x => negb (is_text h x)) (children h n)) with
+           | Some l => Some (n :: l)
+           | None => None
+           end
+  end.
 
 Definition norm_walk_ok (h : heap) (n : nat) : bool :=
   match norm_walk (S (length h)) h n with Some l => nodup_b l | None => false end.
